@@ -59,8 +59,12 @@ ASSUMPTIONS = [
     "listing order), which is the order the model documents by padding shorter stamps",
     "exact cache comparison with the furthest-next-use reference is skipped (bounds only) when pinned staging "
     "lines alone exceed the capacity -- the statement does not define optimality for an over-committed cache",
+    "a replacement decision between two lines of ONE binding whose next uses carry the same stamp (read/write "
+    "tie) is not determined by the statement -- either choice is furthest-next-use; such cases get bounds only",
     "overflow counts are compared with the reference occupancy models (in-order drain for the buffet) as part of "
     "'what the policy implies'; they are reported under their own violation kind",
+    "kernel part: trace files without a header (a loop that never ran) are not bound; the traces Metrics writes "
+    "are taken as input data (their correctness is C16's subject)",
 ]
 
 BIG = 10 ** 6
